@@ -491,7 +491,7 @@ func TestVerifC15Conc(t *testing.T) {
 	}
 	flush()
 	r := &vRand{s: o.seed*32452843 + 17}
-	n := 350
+	n := 250
 	if o.thorough {
 		n = 5000
 	}
